@@ -839,3 +839,30 @@ func specASResp(m message.Message) *message.AssociationSetupResponse {
 
 // The local recovery time stamp is fixed when the association object is created.
 //@ immutable PFCPConn.ts.local writers (*PFCPNode).NewPFCPConn
+
+// ---------------------------------------------------------------------------
+// C08: SDF filters and PFD-backed application IDs
+// ---------------------------------------------------------------------------
+
+//@ func (ep *endpoint) parseNet(ipnet string) (err error)
+//@   requires ep != nil
+//@   freshwrites net.IPNet, E:uint8, E:string
+//@   ensures C08.net.ok: err == nil ==> ep.IPNet != nil && (len(ep.IPNet.IP) == 4 || len(ep.IPNet.IP) == 16) && len(ep.IPNet.Mask) == len(ep.IPNet.IP)
+//@   ensures C08.net.ports: ep.ports == old[portRange](ep.ports)
+
+//@ func (ep *endpoint) parsePort(port string) (err error)
+//@   requires ep != nil
+//@   ensures C08.port.ordered: err == nil ==> ep.ports.low <= ep.ports.high
+//@   ensures C08.port.keep: err != nil ==> ep.ports == old[portRange](ep.ports)
+//@   ensures C08.port.net: ep.IPNet == old[*net.IPNet](ep.IPNet)
+
+//@ func parseFlowDesc(flowDesc string, ueIP string) (ipf *ipFilterRule, err error)
+//@   ensures C08.flow.result: (err == nil) <==> (ipf != nil)
+//@   ensures C08.flow.nets: err == nil ==> ipf.src.IPNet != nil && ipf.dst.IPNet != nil && len(ipf.src.IPNet.IP) >= 4 && len(ipf.dst.IPNet.IP) >= 4 && len(ipf.src.IPNet.Mask) >= 4 && len(ipf.dst.IPNet.Mask) >= 4
+//@   ensures C08.flow.ports: err == nil ==> (ipf.src.ports.low <= ipf.src.ports.high) && (ipf.dst.ports.low <= ipf.dst.ports.high)
+//@   ensures C08.flow.dir: err == nil ==> ipf.direction == "in" || ipf.direction == "out"
+//@   ensures C08.flow.fresh: err == nil ==> !allocated(ipf)
+//@   loop 1 invariant C08.flow.l.idx: 3 <= i && i <= len(fields) && ipf != nil && !allocated(ipf) && !allocated(fields)
+//@   loop 1 invariant C08.flow.l.ports: ipf.src.ports.low <= ipf.src.ports.high && ipf.dst.ports.low <= ipf.dst.ports.high
+//@   loop 1 invariant C08.flow.l.nets: (ipf.src.IPNet != nil ==> len(ipf.src.IPNet.IP) >= 4 && len(ipf.src.IPNet.Mask) >= 4) && (ipf.dst.IPNet != nil ==> len(ipf.dst.IPNet.IP) >= 4 && len(ipf.dst.IPNet.Mask) >= 4)
+//@   loop 1 invariant C08.flow.l.dir: ipf.direction == "in" || ipf.direction == "out"
